@@ -937,6 +937,29 @@ func caseC18(c *Ctx) {
 				continue
 			}
 		}
+		if i%40 == 25 && !gs.W.IsLocked() {
+			// a filter object that was used already is told to treat a plain component as its relation: the next
+			// use must be rejected, exactly as for a filter that was never used
+			n := 1 + c.R.Intn(12)
+			f := gInsts[gKey{n, false}].NewFilter()
+			if c.R.Chance(0.7) {
+				q := f.Query(gs.W)
+				q.Q().Close()
+			}
+			f.WithRelation(generic.T[G0]())
+			if !mustPanic(func() {
+				q := f.Query(gs.W)
+				q.Q().Close()
+			}) {
+				gs.fail("illegal.nopanic:generic.Filter.WithRelation.nonrelation", "a FilterN with a non-relation component declared as its relation was accepted")
+				break
+			}
+			if gs.W.IsLocked() {
+				gs.fail("illegal.lock:generic.Filter.WithRelation.nonrelation", "the rejected query left the world locked")
+				break
+			}
+			gs.Cov.N["generic_rejected_calls"]++
+		}
 		outG := gs.Do(op)
 		if gs.Failed() {
 			break
